@@ -8,7 +8,7 @@
   programs of put / get / delete: the schedule chooses, for an idle thread, the next operation (`Act.start`).
 
   Writer micro-steps (Manager.Put/Delete + RetryOnWALRotating + wal.Append):
-      call ; mu.Lock ; [ getWAL ; Append: status check ; buffer record ; maybeSync: status check again (sync-immediate) ]
+      call ; mu.Lock ; [ getWAL ; Append: status check ; buffer record ; maybeSync: Closed check only (sync-immediate) ]
       → ok: memtable insert (+ scheduleFlush)  = LINEARIZATION POINT ; mu.Unlock ; return ok
       → ErrWALRotating: retry (≤ 3 attempts, mu stays held) ; after the 3rd: mu.Unlock ; return error
       → ErrWALClosed: not retried ; mu.Unlock ; return error
@@ -20,7 +20,8 @@
   takes mu.Lock around the publication; lock + publish + unlock is one step of the model).
 
   Ghost state: the trace of call / linearization-point / return events (newest first), `late` = number of appends
-  that observed `Rotating` after their record had been buffered (D19).
+  that failed after their record had been buffered; PROVED to stay 0 (`no_late`). History: before f92d9b5 syncLocked
+  also refused a Rotating log, `late` could become positive and error-no-effect / once-in-the-log were false (D19).
 -/
 import Kevo.Spec.Lin
 namespace Kevo.ConcStorage
@@ -145,11 +146,12 @@ def stepThread {S : Store} (cfg : Cfg) (s : St S) (t : Nat) : Option (St S) :=
       | .closed => some { go (.done .err) with tr := .lin r.id r.op .err :: s.tr }
     | .wChecked a w =>
       some { go (if cfg.syncImmediate then .wBuffered a w else .wAppended) with wals := addRec s.wals w r.id }
-    | .wBuffered a w =>
+    | .wBuffered _ w =>
+      -- maybeSync → syncLocked (repaired, f92d9b5): only a CLOSED log refuses the sync; a log that is being rotated is
+      -- still synced (the caller holds w.mu, the file stays open until Close, which needs w.mu)
       match walStatus s w with
-      | .active => some (go .wAppended)
-      | .rotating => some { go (.wFailed a) with late := s.late + 1 }
       | .closed => some { go (.done .err) with tr := .lin r.id r.op .err :: s.tr, late := s.late + 1 }
+      | _ => some (go .wAppended)
     | .wAppended =>
       match opKV r.op with
       | some (k, v) => some { go (.done .ok) with store := S.write s.store k v, tr := .lin r.id r.op .ok :: s.tr }
